@@ -5,11 +5,12 @@ files and symlinks, Touched, Confined / EscapeRejected; transcriptions: posixpat
 LocalStorageBackend._resolve_path, DataFileManager._get_arrow_path, list_files/os.walk, GC's '..' guard)
 and spec/MC_PathRes.tla (four layouts x path grammar; two TLC states per case).
 
-1. TLC checks Confined (modulo the known finding C17-write-to-root), EscapeRejected, NotMisresolved and
+1. TLC checks Confined, EscapeRejected, NotMisresolved and
    the listing theorems on the whole grammar and exports every case with the model's verdicts.
-   Companions: the strict Confined must FAIL exactly on writes resolving to the root itself (known
-   finding), must HOLD with the repair modelled, and each code variant (abspath, startswith, no
-   containment, absolute arrow paths unchanged, followlinks, raw-base listing) must FAIL.
+   Companion (CompSpec): without the root-write guard (the code before /repo 409b145, finding
+   C17-write-to-root) the strict Confined must FAIL, exactly on writes resolving to the root itself;
+   each code variant (abspath, startswith, no containment, absolute arrow paths unchanged,
+   followlinks, raw-base listing) must FAIL a theorem.
 2. Binding, spec -> code: every layout is built in a real scratch directory with sentinel trees
    OUTSIDE the root; every exported case is executed against every real entry point with
    builtins.open / os.open / listdir / scandir / remove / replace / rename / mkdir ... wrapped in the
@@ -47,8 +48,8 @@ LAYOUTS = ["A", "B", "C", "D"]
 REL_PRES = ["rel", "slash"]
 ABS_PRES = ["base", "canon", "out", "sib", "ws"]
 AS_IS = {"VRealpath": True, "VContain": "commonpath", "VArrowAbs": False, "VListRaw": False,
-         "VFollow": False, "VRootGuard": False}
-MAIN_INVARIANTS = ["ConfinedKnown", "EscapeRejected", "NotMisresolved", "ListingRoundTrip1", "ListServes1", "Exported"]
+         "VFollow": False, "VRootGuard": True}
+MAIN_INVARIANTS = ["Confined", "EscapeRejected", "NotMisresolved", "ListingRoundTrip1", "ListServes1", "Exported"]
 KNOWN_ROOT_WRITE = "resolves-to-root"
 
 # names the grammar can spell directly under the real filesystem root (true absolute readings such
@@ -641,6 +642,8 @@ def _judge(ctx: Ctx, world: World, case: Dict[str, Any], entry: str, resolver: s
         bad = True
     # --- model drift (never a verdict) ---
     rej_model = case["arrRej"] if arrow else case["resRej"]
+    if cls == "write" and (case["arrRoot"] if arrow else case["resRoot"]):
+        rej_model = True                      # refused by the root-write guard (storage_backend.py:244, data_operations.py:450)
     rej_real = r["raised"] and r["exc"] == "ValueError" and "Security Error" in r["msg"]
     if rej_model != rej_real and not (entry == "list_files" and case["listRej"] == rej_real):
         stats["drift_reject"] += 1
@@ -1014,52 +1017,24 @@ def _companion_run(sample_file: str, depth: int) -> tlc.TLCResult:
                        label=f"MC_PathRes CompSpec (defect / repair / variants on the depth-{depth} grid)")
 
 
-def _probe_root_guard() -> bool:
-    """Which value of the model flag VRootGuard describes the code as it is: does a write whose path resolves to the
-    table root itself still put its temporary file into the root's parent directory (finding C17-write-to-root)?"""
-    from datashard.storage_backend import LocalStorageBackend
-
-    d = scratch_dir("c17p")
-    parent = os.path.join(d, "parent")
-    root = os.path.join(parent, "t")
-    os.makedirs(root)
-    before = os.stat(parent).st_mtime_ns
-    refused = False
-    try:
-        LocalStorageBackend(root).write_file("", b"probe")
-    except ValueError:
-        refused = True
-    except Exception:
-        refused = False
-    untouched = os.stat(parent).st_mtime_ns == before and os.listdir(parent) == ["t"]
-    shutil.rmtree(d, ignore_errors=True)
-    return refused and untouched
-
-
-def _companions(ctx: Ctx, res: tlc.TLCResult, repaired_in_repo: bool) -> None:
+def _companions(ctx: Ctx, res: tlc.TLCResult) -> None:
     ctx.add_tlc(res)
     verdict: Dict[str, bool] = {}
     for line in res.stdout.splitlines():
-        if line.startswith('"{') and "asIsStrictConfinedFails" in line:
+        if line.startswith('"{') and "preFixStrictConfinedFails" in line:
             verdict = json.loads(json.loads(line))
     if not verdict:
         raise MachineryError(f"companion run printed no verdict record:\n{res.stdout[-2000:]}")
     ctx.cov["companion_verdict"] = verdict
     wrong = sorted(k for k, v in verdict.items() if not v)
-    if not res.ok or wrong:
-        if wrong == ["asIsStrictConfinedFails"] or wrong == ["asIsFailsOnlyOnRootWrite"] or "asIsOtherTheoremsHold" in wrong:
-            # the as-is model's defect profile changed: a property-level statement about the model
-            ctx.violation("model:Confined", f"TLC (CompSpec): the as-is model's verdicts changed: {wrong}", res.stdout[-3000:])
-            return
-        raise MachineryError(f"anti-vacuity / repair companion failed: {wrong or res.violated}\n{res.stdout[-2000:]}")
-    ctx.cov["anti_vacuity"] = sorted(k for k in verdict if k.endswith("Caught") or k.startswith("reaches") or k == "asIsStrictConfinedFails")
-    ctx.cov["repair_modelled"] = "repairedAllHold: with VRootGuard=TRUE Confined (strict), EscapeRejected, NotMisresolved and the listing theorems hold"
-    if repaired_in_repo:
+    if wrong == ["asIsAllHold"]:
+        ctx.violation("model:asIsAllHold", "TLC (CompSpec): a theorem fails on the small grid for the code as it is", res.stdout[-3000:])
         return
-    # fails with the defect modelled, holds with the repair modelled
-    ctx.violation("model:Confined:write-resolving-to-root",
-                  "TLC: in the as-is model a write-class call whose path resolves to the table root itself puts its temporary file into the "
-                  "root's parent directory (strict Confined fails exactly there; holds with VRootGuard=TRUE)", verdict)
+    if not res.ok or wrong:
+        raise MachineryError(f"anti-vacuity / defect companion failed: {wrong or res.violated}\n{res.stdout[-2000:]}")
+    ctx.cov["anti_vacuity"] = sorted(k for k in verdict if k.endswith("Caught") or k.startswith("reaches") or k == "preFixStrictConfinedFails")
+    ctx.cov["defect_and_repair_modelled"] = ("finding C17-write-to-root (repaired in /repo 409b145): with VRootGuard=FALSE the strict Confined fails, exactly on "
+                                            "writes resolving to the root itself; with VRootGuard=TRUE (the code as it is) it holds")
 
 
 def _quiet() -> None:
@@ -1080,10 +1055,8 @@ def run(ctx: Ctx) -> None:
     layouts_file = os.path.join(work, "layouts.json")
     empty_file = os.path.join(work, "empty.ndjson")
     open(empty_file, "w").close()
-    guard = _probe_root_guard()
-    ctx.cov["model_flag_VRootGuard"] = guard
-    as_is = dict(AS_IS, VRootGuard=guard)
-    invariants = (["Confined"] if guard else ["ConfinedKnown"]) + MAIN_INVARIANTS[1:]
+    as_is = dict(AS_IS)
+    invariants = list(MAIN_INVARIANTS)
     if quick:
         sample = _sample_cases(ctx.seed, 1500, 3, 4)
         consts = dict(as_is, MaxDepth=2, AbsDepth=1)
@@ -1097,10 +1070,10 @@ def run(ctx: Ctx) -> None:
     # companions run in the background while the main model is checked
     with ThreadPoolExecutor(max_workers=1) as bg:
         comp = bg.submit(_companion_run, empty_file, 1 if quick else 2)
-        res = _tlc(f"MC_PathRes as-is (VRootGuard={guard}) MaxDepth={consts['MaxDepth']} AbsDepth={consts['AbsDepth']} sample={len(sample)}", consts,
+        res = _tlc(f"MC_PathRes as-is MaxDepth={consts['MaxDepth']} AbsDepth={consts['AbsDepth']} sample={len(sample)}", consts,
                    invariants, sample_file, layouts_file, workers=6 if quick else 12, timeout_s=1500)
         ctx.add_tlc(res)
-        _companions(ctx, comp.result(), guard)
+        _companions(ctx, comp.result())
     if not res.ok:
         ctx.violation("model:" + "+".join(res.violated or ["error"]),
                       f"TLC: {res.violated} violated in the path-resolution model (transcription of _resolve_path/_get_arrow_path/list_files)",
